@@ -236,3 +236,52 @@ func VH_C20_decode_stat() {
 	v.Assert(t.UnmarshalVT(enc) == nil, "re-encoded stat decodes")
 	v.Assert(statFieldsEqual(&s, &t), "decode/encode/decode is stable")
 }
+
+var boundaryLens = []int{0, 1, 2, 24, 60, 100, 118, 119, 120, 121, 122, 123, 124, 125, 126, 127, 128, 129, 130}
+var boundaryLensBig = []int{16370, 16372, 16374, 16376, 16378, 16379, 16380, 16381, 16382, 16383, 16384, 16385, 16386}
+
+func patternString(tag string, n int) string {
+	b := make([]byte, n)
+	for i := range b {
+		b[i] = byte(i*11 + 5)
+	}
+	if n > 0 {
+		b[0] = v.U8(tag)
+	}
+	return string(b)
+}
+
+// VH_C20_stat_lengths: round trip and conformance for length-delimited fields whose lengths sit
+// at the varint size-class boundaries (one- to two-byte at 128, two- to three-byte at 16384):
+// the path / link name (F=1, F=7) or an xattr entry whose key and value lengths are chosen
+// independently from the boundary set (F=10), so that the value, the key and the whole map entry
+// cross a boundary separately. Contents are a fixed pattern with a symbolic first byte.
+func VH_C20_stat_lengths() {
+	lens := boundaryLens
+	if v.Param("BIG", 0) != 0 {
+		lens = boundaryLensBig
+	}
+	var s Stat
+	switch v.Param("F", 10) {
+	case 1:
+		s.Path = patternString("p0", lens[v.Choose("pl", len(lens))])
+	case 7:
+		s.Linkname = patternString("l0", lens[v.Choose("ll", len(lens))])
+	case 10:
+		kl := boundaryLens[v.Choose("kl", len(boundaryLens))]
+		vl := lens[v.Choose("vl", len(lens))]
+		s.Xattrs = map[string][]byte{patternString("k0", kl): []byte(patternString("v0", vl))}
+	}
+	roundTripStat(&s)
+	// the same stat nested in a packet (the length prefix of the nested message crosses too)
+	p := &Packet{Type: PACKET_STAT, Stat: &s}
+	enc, err := p.MarshalVT()
+	v.Assert(err == nil && len(enc) == p.SizeVT(), "Packet encoding has the announced size")
+	v.Assert(string(enc) == string(refPacket(p)), "Packet encoding equals the reference proto3 encoding")
+	buf := make([]byte, p.SizeVT())
+	n, err := p.MarshalTo(buf)
+	v.Assert(err == nil && n == len(buf) && string(buf) == string(enc), "MarshalTo fills exactly Size() bytes with the same encoding")
+	var q Packet
+	v.Assert(q.UnmarshalVT(enc) == nil && q.Stat != nil && statFieldsEqual(&s, q.Stat), "Packet round trip preserves the nested stat")
+	v.Cover("done")
+}
